@@ -335,6 +335,18 @@ pub fn step_monitors(props: &[&str], pre: &Sim, act: &Act, ap: &Applied, post: &
     let ps = &ap.pre_state;
     let qs = &ap.post_state;
 
+    // the chain-written documents (ibc-hooks acknowledgement / timeout callback, operator memo) must decode:
+    // a contract that cannot read them never learns of refunds, rewards or unbonded tokens
+    if ap.out.undecodable {
+        let what = ap.out.err.clone().unwrap_or_default();
+        for p in props {
+            match (*p, act) {
+                ("C01" | "C02" | "C03", Act::Outcome { seq, kind }) => v.push(viol(p, "wire.callback_undecodable", format!("outcome {kind} of packet {seq}: {what}"))),
+                ("C01" | "C02" | "C05" | "C06" | "C11", Act::Hook { .. }) => v.push(viol(p, "wire.hook_memo_undecodable", what.clone())),
+                _ => {}
+            }
+        }
+    }
     // every outbound transfer carries the callback memo and a future timeout (C07 mechanism)
     if has(props, "C07") {
         for e in &ap.out.events {
